@@ -563,18 +563,18 @@ func init() {
 		if tier == "quick" {
 			p.BudgetS = 480
 			p.Runs = []Run{
-				e2run("counter-2c-d5", e2p{Clients: 2, Type: "counter", Oracles: o, Alpha: "one"}, 5, 0),
+				e2run("counter-2c-d6", e2p{Clients: 2, Type: "counter", Oracles: o, Alpha: "one"}, 6, 0),
 				e2run("counter-vs-map-2c-d4", e2p{Clients: 2, Type: "counter", Types: []string{"counter", "map"}, Oracles: o, Alpha: "one"}, 4, 0),
-				e2run("list-2c-d4", e2p{Clients: 2, Type: "list", Oracles: o}, 4, 0),
+				e2run("list-2c-d5", e2p{Clients: 2, Type: "list", Oracles: o}, 5, 0),
 			}
 		} else {
 			p.BudgetS = 3300
 			p.Runs = []Run{
-				e2run("counter-2c-d7", e2p{Clients: 2, Type: "counter", Oracles: o, Alpha: "one"}, 7, 300000),
-				e2run("counter-3c-d5", e2p{Clients: 3, Type: "counter", Oracles: o, Alpha: "one"}, 5, 300000),
-				e2run("counter-vs-map-2c-d6", e2p{Clients: 2, Type: "counter", Types: []string{"counter", "map"}, Oracles: o, Alpha: "one"}, 6, 300000),
-				e2run("list-vs-doc-2c-d5", e2p{Clients: 2, Type: "list", Types: []string{"list", "doc"}, Oracles: o}, 5, 300000),
-				e2run("list-2c-d5", e2p{Clients: 2, Type: "list", Oracles: o}, 5, 300000),
+				e2run("counter-2c-d9", e2p{Clients: 2, Type: "counter", Oracles: o, Alpha: "one"}, 9, 300000),
+				e2run("counter-3c-d6", e2p{Clients: 3, Type: "counter", Oracles: o, Alpha: "one"}, 6, 300000),
+				e2run("counter-vs-map-2c-d7", e2p{Clients: 2, Type: "counter", Types: []string{"counter", "map"}, Oracles: o, Alpha: "one"}, 7, 300000),
+				e2run("list-vs-doc-2c-d6", e2p{Clients: 2, Type: "list", Types: []string{"list", "doc"}, Oracles: o}, 6, 300000),
+				e2run("list-2c-d7", e2p{Clients: 2, Type: "list", Oracles: o}, 7, 300000),
 				e2run("counter-2c-2keys-d5", e2p{Clients: 2, Type: "counter", Keys: []string{"k1", "k2"}, Exchange: "pack", Oracles: o, Alpha: "one"}, 5, 300000),
 			}
 		}
@@ -703,9 +703,9 @@ func init() {
 				schedRun("race-create-collection-2-b3", 3, mkrace(2, false), 0),
 				schedRun("race-create-collection-2-reset-b2", 2, mkrace(2, true), 0),
 				{Name: "client-patch-collection-messages", Check: "C16", Kind: "mutadmin", Cases: true, Params: map[string]interface{}{}, Shards: 16},
-				e2run("counter-2col-2c-joined-d4", e2p{Clients: 2, Type: "counter", Colls: []string{"colA", "colB"}, Prefix: "joined", Foreign: true, Alpha: "one", Oracles: o}, 4, 0),
-				e2run("counter-2col-4c-joined-d3", e2p{Clients: 4, Type: "counter", Colls: []string{"colA", "colB"}, Prefix: "joined", Foreign: true, Alpha: "one", Oracles: o}, 3, 0),
-				e2run("counter-2col-2c-entry-d4", e2p{Clients: 2, Type: "counter", Colls: []string{"colA", "colB"}, Modes: []string{"soc"}, Foreign: true, Alpha: "one", Oracles: o}, 4, 0),
+				e2run("counter-2col-2c-joined-d6", e2p{Clients: 2, Type: "counter", Colls: []string{"colA", "colB"}, Prefix: "joined", Foreign: true, Alpha: "one", Oracles: o}, 6, 0),
+				e2run("counter-2col-4c-joined-d4", e2p{Clients: 4, Type: "counter", Colls: []string{"colA", "colB"}, Prefix: "joined", Foreign: true, Alpha: "one", Oracles: o}, 4, 0),
+				e2run("counter-2col-2c-entry-d5", e2p{Clients: 2, Type: "counter", Colls: []string{"colA", "colB"}, Modes: []string{"soc"}, Foreign: true, Alpha: "one", Oracles: o}, 5, 0),
 			}
 		} else {
 			p.BudgetS = 3300
@@ -714,8 +714,8 @@ func init() {
 				schedRun("race-create-collection-2-b4", 4, mkrace(2, false), 0),
 				schedRun("race-create-collection-3-b3", 3, mkrace(3, false), 0),
 				schedRun("race-create-collection-2-reset-b3", 3, mkrace(2, true), 0),
-				e2run("counter-2col-2c-joined-d6", e2p{Clients: 2, Type: "counter", Colls: []string{"colA", "colB"}, Prefix: "joined", Foreign: true, Alpha: "one", Oracles: o}, 6, 300000),
-				e2run("counter-2col-4c-joined-d5", e2p{Clients: 4, Type: "counter", Colls: []string{"colA", "colB"}, Prefix: "joined", Foreign: true, Alpha: "one", Oracles: o}, 5, 300000),
+				e2run("counter-2col-2c-joined-d8", e2p{Clients: 2, Type: "counter", Colls: []string{"colA", "colB"}, Prefix: "joined", Foreign: true, Alpha: "one", Oracles: o}, 8, 300000),
+				e2run("counter-2col-4c-joined-d6", e2p{Clients: 4, Type: "counter", Colls: []string{"colA", "colB"}, Prefix: "joined", Foreign: true, Alpha: "one", Oracles: o}, 6, 300000),
 				e2run("list-3col-3c-joined-d5", e2p{Clients: 3, Type: "list", Colls: []string{"colA", "colB", "colC"}, Prefix: "joined", Foreign: true, Oracles: o}, 5, 300000),
 				e2run("counter-2col-2c-entry-d6", e2p{Clients: 2, Type: "counter", Colls: []string{"colA", "colB"}, Foreign: true, Alpha: "one", Oracles: o}, 6, 300000),
 				e2run("doc-2col-2c-2keys-joined-d4", e2p{Clients: 2, Type: "doc", Keys: []string{"k1", "k2"}, Colls: []string{"colA", "colB"}, Prefix: "joined", Exchange: "pack", Foreign: true, Oracles: o}, 4, 300000),
